@@ -79,6 +79,7 @@ fn seq_spec(ctx: &Ctx, shards: usize) -> SeqSpec {
         oracle: seq_oracle(),
         keys: vec![1, 2],
         canon_sketch: true,
+        ghost_key: Some(ghost_key(false)),
         max_states: if quick { 80_000 } else { 3_000_000 },
         time_cap_s: if quick { 20.0 } else { 900.0 },
     }
@@ -173,6 +174,12 @@ pub fn ilv_programs() -> Vec<Program> {
     // (i) another client works on other keys behind the same shard locks
     v.push(mk("k:put;await;get || other:put(b);delete(b)", vec![], vec![vec![put(1, 30), Op::Await { call: 0 }, get(1)], vec![put(2, 30), del(2)]]));
     v.push(mk("k:upsert(v);get;delete;await;put;await;get || other:upsert(b)", vec![put(1, 30), put(2, 30)], vec![vec![ups(1, true, None, None, false), get(1), del(1), Op::Await { call: 2 }, put(1, 30), Op::Await { call: 4 }, get(1)], vec![ups(2, true, Some(31), None, false)]]));
+    {
+        // another client's TTL key is put concurrently and swept later: the sweep must not touch k
+        let mut p = mk("k:put;await;get || other:put_ttl(b) ; then clock+3s;tick", vec![], vec![vec![put(1, 30), Op::Await { call: 0 }, get(1)], vec![put_ttl(2, 30, 1000)]]);
+        p.post = vec![adv(3000), Op::TickWait, get(1)];
+        v.push(p);
+    }
     // (ii) readers hammer a second key through buffer hand-overs and sketch ageing
     v.push(mk("k:upsert(v);get || reader:get(b)x4", vec![put(1, 30), put(2, 30)], vec![vec![ups(1, true, None, None, false), get(1)], vec![get(2), get(2), get(2), get(2)]]));
     // (iii) the environment advances the clock and ticks: TTL extension / removal / expiry of another key
